@@ -206,7 +206,10 @@ static bool bary(const std::array<std::array<double, 3>, 3> &t, double x, double
 {
   const long double x0 = t[0][0], y0 = t[0][1], x1 = t[1][0], y1 = t[1][1], x2 = t[2][0], y2 = t[2][1];
   const long double det = (y1 - y2) * (x0 - x2) + (x2 - x1) * (y0 - y2);
-  if (det == 0) return false;
+  // a triangle without area (collinear nodes kept by the triangulation, |det| at rounding level) has no interior and its
+  // barycentric coordinates are noise: it cannot be "the containing triangle"
+  const long double scale = std::max({(x0 - x2) * (x0 - x2) + (y0 - y2) * (y0 - y2), (x1 - x2) * (x1 - x2) + (y1 - y2) * (y1 - y2), (x0 - x1) * (x0 - x1) + (y0 - y1) * (y0 - y1)});
+  if (std::fabs(det) <= 1e-9L * scale) return false;
   const long double l0 = ((y1 - y2) * (x - x2) + (x2 - x1) * (y - y2)) / det;
   const long double l1 = ((y2 - y0) * (x - x2) + (x0 - x2) * (y - y2)) / det;
   const long double l2 = 1 - l0 - l1;
